@@ -96,6 +96,10 @@ func (c *Conn) handleAuthenticate(tag string, dec *imapwire.Decoder) error {
 		if err != nil {
 			return err
 		} else if isPrefix {
+			for isPrefix && err == nil {
+				// drop the rest of the line, it's not a command
+				_, isPrefix, err = c.br.ReadLine()
+			}
 			return fmt.Errorf("SASL response too long")
 		} else if string(encodedResp) == "*" {
 			return &imap.Error{
